@@ -192,6 +192,12 @@ func c09Run(c *core.Ctx) *core.Result {
 		return r
 	}
 	c09Compare(r, "FS.Walk(/)", snap.Entries, got2, "")
+	// the wrapper Send puts around every FS must not change an unfiltered view
+	if got2b, err := walkStats(fsutil.WithHardlinkReset(fs), "/"); err != nil {
+		r.Violate("walk-error", "walk through WithHardlinkReset failed: %v", err)
+	} else {
+		c09Compare(r, "WithHardlinkReset(FS).Walk(/)", snap.Entries, got2b, "")
+	}
 
 	// 3. sub-target walk = restriction
 	if len(snap.Entries) > 0 {
